@@ -103,7 +103,8 @@ def run_config(cfg):
     else:
         want_unsat("consumer left early with the pool not reset (cannot be reused)", "pool-not-reusable-after-early-exit",
                    z3.Or(comp.state_bad + [z3.BoolVal(False)]))
-        want_sat("twin: early exit before the end and everybody finished", comp.all_finished(), n == nmax, comp.x < n)
+        want_sat("twin: early exit before the end and everybody finished", comp.all_finished(), n == nmax,
+                 *([comp.x < n] if nmax >= 2 else []))
     st.paths = comp.extract_stats["worker_paths"] + comp.extract_stats["consumer_paths"]
     st.queries = len(comp.queries) + comp.extract_stats["worker_explore"]["queries"] + comp.extract_stats["consumer_explore"]["queries"]
     st.qtime = sum(q["solver_s"] for q in comp.queries)
